@@ -34,3 +34,24 @@ Theorem C02_complete : forall rs m p r, wf_table rs -> m <> NF -> In r rs -> rt_
   matchT (rt_toks r) p -> is_found (dispatch (build rs) m p).
 Proof. exact instance_complete. Qed.
 Print Assumptions C02_complete.
+
+(* NOT proved at full strength: [is_found] includes being answered by a RouteNotFound route.  The
+   stronger reading "the handler of a route registered for the method runs" is refuted on the faithful
+   model (and on echo: known finding D11): a RouteNotFound route on a wildcard node ends the search. *)
+Example C02_complete_real_handler_refuted :
+  exists rs m p r, In r rs /\ rt_m r = m /\ m <> NF /\ matchT (rt_toks r) p /\
+    Forall (fun r => wf_toks (rt_toks r)) rs /\
+    exists r' v, dispatch (build rs) m p = Found r' v /\ r_method r' = NF.
+Proof.
+  pose (get := list_ascii_of_string "GET").
+  pose (t1 := L "/" ++ [TParam] ++ L "/us/" ++ [TParam]).
+  pose (t2 := L "/v1/us/" ++ [TAny]).
+  pose (r1 := {| rt_m := get; rt_toks := t1; rt_rm := ([], 0) |}).
+  pose (r2 := {| rt_m := NF; rt_toks := t2; rt_rm := ([], 1) |}).
+  exists [r1; r2], get, (list_ascii_of_string "/v1/us/x"), r1.
+  split; [left; reflexivity|]. split; [reflexivity|]. split; [discriminate|]. split.
+  - unfold r1, t1. cbn. repeat constructor; discriminate.
+  - split.
+    + repeat constructor; (eexists; split; [reflexivity|reflexivity]).
+    + eexists. eexists. split; [vm_compute; reflexivity|reflexivity].
+Qed.
